@@ -60,6 +60,38 @@ class BuildLock:
         self.f.close()
 
 
+def repo_override(log=None):
+    """When VERIF_REPO names another checkout of rust-teos (a scratch git worktree used to try a patch or a
+    seeded change), the translator already reads it (REPO); this makes the Rust harness (and through it every
+    crate of the repository, the plugin binary included) build against it too, without touching the committed
+    harness/Cargo.toml: a copy of harness/ with the path dependencies rewritten lives under .build/harness-alt
+    and builds into .build/target-alt.  Idempotent."""
+    global HARNESS, TARGET
+    import shutil  # noqa: F401
+    repo = os.path.realpath(REPO)
+    if repo == "/repo" or HARNESS.endswith("harness-alt"):
+        return False
+    src = HARNESS
+    alt = os.path.join(BUILD, "harness-alt")
+    os.makedirs(alt, exist_ok=True)
+    sh(["rsync", "-a", "--delete", "--exclude", ".cargo", "--exclude", "Cargo.toml", os.path.join(src, ""), alt + "/"])
+    man = open(os.path.join(src, "Cargo.toml")).read()
+    man2 = re.sub(r'path = "/repo/', f'path = "{repo}/', man)
+    p = os.path.join(alt, "Cargo.toml")
+    if not os.path.exists(p) or open(p).read() != man2:
+        open(p, "w").write(man2)
+    os.makedirs(os.path.join(alt, ".cargo"), exist_ok=True)
+    cfg = '[net]\noffline = true\n[build]\ntarget-dir = "../target-alt"\n'
+    p = os.path.join(alt, ".cargo", "config.toml")
+    if not os.path.exists(p) or open(p).read() != cfg:
+        open(p, "w").write(cfg)
+    HARNESS = alt
+    TARGET = os.path.join(BUILD, "target-alt")
+    if log:
+        log(f"VERIF_REPO={repo}: harness built from {alt} into {TARGET}")
+    return True
+
+
 class Ctx:
     def __init__(self, pid, tier, seed):
         self.pid = pid
@@ -79,6 +111,8 @@ class Ctx:
         self.assumptions = []
         self.notes = []
         self.known = load_known(pid)
+        if repo_override(self.log):
+            self.notes.append(f"checked against VERIF_REPO={os.path.realpath(REPO)} (not /repo)")
 
     def log(self, msg):
         print(f"[{self.pid} {time.time() - self.t0:6.1f}s] {msg}", flush=True)
